@@ -327,7 +327,8 @@ func (vf *VerifyFunc) doCall(st *State, fr *Frame, in ssa.Instruction, cc *ssa.C
 	_ = resT
 	label := eng.info(fr.fn).callOrd[in]
 	top := len(st.frames) == 1
-	if top && vf.fc != nil && vf.fc.Flags["interleaved"] {
+	if top && vf.fc != nil && vf.fc.Flags["interleaved"] && st.heldNow == 0 {
+		// (while this goroutine holds a lock the relied-on state is taken to be protected by it: monitor discipline)
 		// other goroutines run between any two steps of this function: what the rely clause names may change before
 		// every call (calls are the only points at which this function observes or changes shared state)
 		vf.yield(st)
@@ -1159,22 +1160,30 @@ func (vf *VerifyFunc) lockOp(st *State, m *Val, op string, in ssa.Instruction) {
 		}
 		st.heapSet("L:w", was, store(w, a, "true"))
 		st.locked = append(st.locked, lockRec{a, where})
+		st.heldNow++
 	case "unlock":
 		if chk {
 			st.check("lock", "unlock-held@"+where, "C14", "Unlock of a mutex that is not held", where, sel(w, a))
 		}
 		st.heapSet("L:w", was, store(w, a, "false"))
+		if st.heldNow > 0 {
+			st.heldNow--
+		}
 	case "rlock":
 		if chk {
 			st.check("lock", "no-reacquire@"+where, "C14", "RLock while holding the write lock (self-deadlock)", where, not(sel(w, a)))
 		}
 		st.heapSet("L:r", ras, store(r, a, "(+ "+sel(r, a)+" 1)"))
 		st.locked = append(st.locked, lockRec{a, where})
+		st.heldNow++
 	case "runlock":
 		if chk {
 			st.check("lock", "runlock-held@"+where, "C14", "RUnlock without RLock", where, "(> "+sel(r, a)+" 0)")
 		}
 		st.heapSet("L:r", ras, store(r, a, "(- "+sel(r, a)+" 1)"))
+		if st.heldNow > 0 {
+			st.heldNow--
+		}
 	}
 }
 
